@@ -537,3 +537,34 @@ def r7(fx):
 def r10(fx):
     for o in p08.r2(fx):
         yield o
+
+
+@rule('C14', 'R11', 20, 'CLI argument parsing: Micro version names in any letter case relax the default micro=False; numeric versions / explicit --micro are kept')
+def r11(fx):
+    import argparse
+    it = Interp(max_steps=5_000_000)
+
+    class ArgNS:
+        _model = ('ArgumentParser',)
+        ArgumentParser = argparse.ArgumentParser
+    segno_ns = ev.Namespace('segno', {'__version__': ev.const(fx.forest, '__init__', '__version__')})
+    genv = callable_env(fx.forest, 'cli', it, {'argparse': ArgNS(), '_AttrDict': dict, 'segno': segno_ns})
+    fn = fx.fn('cli', 'parse')
+    parse = FuncVal(fn, genv, it)
+
+    def run(argv):
+        cfg = parse(list(argv) + ['content'])
+        return cfg.get('micro'), cfg.get('version'), cfg.get('error')
+    for k in (1, 2, 3, 4):
+        for flags, want_micro in (([], None), (['--no-micro'], None), (['--micro'], True)):
+            res = {}
+            for spell in (f'M{k}', f'm{k}'):
+                res[spell] = run(['--version', spell] + flags)
+            ok = res[f'M{k}'][0] is want_micro and res[f'm{k}'][0] is want_micro
+            yield ob(f'--version M{k}/m{k} {" ".join(flags)}', ok, fn, got={s_: r[0] for s_, r in res.items()}, want=f'micro={want_micro} for both spellings')
+    for v in ('1', '40', '7'):
+        yield ob(f'--version {v}: Micro stays disallowed by default', run(['--version', v])[0] is False, fn, got=run(['--version', v])[0], want=False)
+    yield ob('no version: Micro disallowed by default, allowed with --micro', (run([])[0], run(['--micro'])[0]) == (False, True), fn,
+             got=(run([])[0], run(['--micro'])[0]), want=(False, True))
+    for e_, want in (('-', None), ('l', 'L'), ('H', 'H'), ('q', 'Q')):
+        yield ob(f'--error {e_}', run(['--error', e_])[2] == want, fn, got=run(['--error', e_])[2], want=want)
